@@ -70,6 +70,7 @@ func TestVerifC16(t *testing.T) {
 		{CallsA: 1, CallsB: 1, Ops: []vsched.NotifyOp{A(1), U(1, 1)}, ViewB: map[uint64]uint64{1: 0}},
 		{CallsA: 2, Ops: []vsched.NotifyOp{A(1), A(2), U(2, 2)}, Cancel: true},
 		{CallsA: 1, Ops: []vsched.NotifyOp{U(3, 1)}, Cancel: true},
+		{CallsA: 1, CallsB: 1, Ops: []vsched.NotifyOp{A(1)}, CancelFirstOnly: true},
 	}
 	newWorld := func(sc vsched.NotifyScenario) vsched.NotifyWorld {
 		w := &c16world{mgr: NewConnectednessManager()}
